@@ -207,6 +207,40 @@ var vfSpecials = []float64{
 
 func vfNegZero() float64 { z := 0.0; return -z }
 
+// the bytes returned by Marshal belong to the caller: a later Marshal / MarshalString must not change them
+func vfC04Owned_N(tier int) int     { return 3 }
+func vfC04Owned_Label(c int) string { return []string{"same length", "shorter second text", "longer second text"}[c] }
+
+func vfC04Owned(c int) {
+	a := orb.LineString{{1.5, -2.25}, {3, 4}, {5, 6}}
+	var b orb.Geometry
+	switch c {
+	case 0:
+		b = orb.LineString{{7.5, -8.25}, {9, 1}, {2, 3}}
+	case 1:
+		b = orb.Point{9, 9}
+	default:
+		b = orb.MultiLineString{{{1, 1}, {2, 2}}, {{3, 3}, {4, 4}, {5, 5}, {6, 6}}}
+	}
+	ta := Marshal(a)
+	saved := string(ta)
+	vfReach("owned")
+	tb := Marshal(b)
+	vfAssert("marshal-bytes-unchanged-by-later-marshal", string(ta) == saved)
+	_ = MarshalString(b)
+	vfAssert("marshal-bytes-unchanged-by-later-marshalstring", string(ta) == saved)
+	ga, err := Unmarshal(string(ta))
+	vfAssert("first-text-still-parses", err == nil)
+	if err == nil {
+		vfWktSame("first-text-roundtrip", ga, a)
+	}
+	gb, err := Unmarshal(string(tb))
+	vfAssert("second-text-parses", err == nil)
+	if err == nil {
+		vfWktSame("second-text-roundtrip", gb, b)
+	}
+}
+
 func vfC04Special_N(tier int) int { return len(vfSpecials) * 3 }
 func vfC04Special_Label(c int) string {
 	return "value=" + strconv.FormatFloat(vfSpecials[c/3], 'g', -1, 64) + " in " + []string{"Point", "LineString", "Collection[MultiPolygon]"}[c%3]
